@@ -460,6 +460,70 @@ def finish_parse(ck: Ck, cases, parts, results) -> None:
         ck.extra['parse_disagreement'] = {'text': t, 'flags': f, 'impl': r, 'options': bits_opts(b), 'n': len(bad)}
 
 
+# ------------------------------------------------------------------------------------------------ chunked delivery, model side
+PRE_CHUNK = '''Import ListNotations. Open Scope N_scope.
+Fixpoint bad_idx {A} (f : A -> bool) (n : N) (l : list A) : list N :=
+  match l with [] => [] | x :: r => (if f x then [] else [n]) ++ bad_idx f (n + 1) r end.
+Definition agree (r : pres) (e : (list kv + kv) + N) : bool :=
+  match r, e with
+  | POk d, inl (inl d') => doc_eqb d d'
+  | PNode k, inl (inr k') => kv_eqb k k'
+  | PErr x, inr c => perr_code x =? c
+  | _, _ => false end.
+Definition flag_tbl (t : list (KvBase.str * bool)) (s : KvBase.str) : bool := existsb (fun p => str_eqb (fst p) s && snd p) t.
+(* the reader-program tokenizer of C03 over the chunk list, with the generated tables, then the token loop *)
+Definition chunk_case (c : ((list (list N) * N) * list (KvBase.str * bool)) * ((list kv + kv) + N)) : bool :=
+  let cs := fst (fst (fst c)) in
+  let n := (length (concat cs) + 2)%nat in
+  agree (parse_kv_reader gen_parsecfg (mkopts (snd (fst (fst c)))) gen_tables (flag_tbl (snd (fst c))) n n (chk_of_chunks cs))
+        (snd c).
+'''
+
+
+def corr_chunked(ck: Ck) -> None:
+    """Keyvalues.parse(list of chunks) against parse_kv_reader (the C03 tokenizer model over the reader state of the real
+    class + the token loop), on serialisations, mutations and corpus texts cut at random / hazardous positions."""
+    n = ck.budget(150, 600)
+    cases = []
+    for i in range(n):
+        rng = ck.rng
+        kind, text = ('corpus', CORPUS_TEXT[i]) if i < len(CORPUS_TEXT) else gen_parse_text(rng)
+        text = text[:400]
+        forms = list(chunkings(rng, text))
+        name, chunks = forms[i % len(forms)]
+        bits = DEFAULT_OPT_BITS if rng.random() < 0.6 else rng.randrange(16)
+        flags: dict = {}
+        res = impl_parse(list(chunks), flags, bits_opts(bits))
+        cases.append((chunks, bits, flags, res))
+        ck.count('chunked_correspondence_cases')
+        ck.hist('chunked_corr_form', name)
+        if len(text) >= 4 and len(chunks) >= 2:
+            ck.seen(('chunked', tuple(chunks), bits))
+
+    def want(r):
+        if r[0] == 'ok':
+            return f'inl (inl {coq_doc(r[1])})'
+        if r[0] == 'node':
+            return f'inl (inr ({coq_tree(r[1])}))'
+        return f'inr {r[1]}'
+    lit = coq_list(
+        f'((([{"; ".join(coq_chars(ch) for ch in c[0])}], {c[1]}), '
+        f'[{"; ".join(f"({coq_chars(f)}, {coq_bool(v)})" for f, v in c[2].items())}]), {want(c[3])})' for c in cases)
+    vals = ck.coq_eval(IMPORTS_REFINE + ['SV.KV.KvEnum'], [f'bad_idx chunk_case 0 {lit}'], name='chunked', preamble=PRE_CHUNK)
+    if vals is None:
+        ck.obligation('correspondence:parse-chunked', False, 'model could not be evaluated')
+        ck.tie_broken.append('correspondence parse-chunked: model evaluation failed')
+        return
+    bad = parse_coq_N_list(vals[0])
+    ck.obligation('correspondence:parse-chunked', not bad,
+                  f'{len(cases)} chunk lists, parse_kv_reader over Text/Tokenizer.v + gen_tables (vm_compute) vs '
+                  f'Keyvalues.parse(chunks): {len(bad)} disagreements')
+    if bad:
+        c = min((cases[i] for i in bad), key=lambda c: sum(map(len, c[0])))
+        ck.tie_broken.append('correspondence parse-chunked (Text/Tokenizer.v reader model + KV/KvParse.v vs Keyvalues.parse)')
+        ck.extra['chunked_disagreement'] = {'chunks': c[0], 'options': bits_opts(c[1]), 'flags': c[2], 'impl': c[3]}
+
+
 # ------------------------------------------------------------------------------------------------ exhaustive token-level tie
 M63 = (1 << 63) - 1
 SYM_TOKENS = ['a', 'b', 'a\n', None, None, None, 'on', 'off', None]     # values of the 9 symbols of KV/KvEnum.v sym_tok
@@ -778,6 +842,36 @@ def shrink_doc(doc, pred):
     return cur
 
 
+def map_strings(doc, fname, fvalue):
+    def go(t):
+        if t[0] == 'L':
+            return ('L', fname(t[1]), fvalue(t[2]))
+        return ('B', fname(t[1]), [go(c) for c in t[2]])
+    return [go(t) for t in doc]
+
+
+def options_expected(doc, po: dict):
+    """What Keyvalues.parse(serialise(doc), **po) must return by theorems kv_roundtrip_options / _single_block."""
+    if po['single_block'] and doc:
+        return ('node', doc[0])
+    return ('ok', doc)
+
+
+def options_fails(doc, po: dict, sopts: dict) -> str:
+    with warnings.catch_warnings():
+        warnings.simplefilter('ignore')
+        text = build_root(doc).serialise(**sopts)
+    got = impl_parse(text, None, po)
+    want = options_expected(doc, po)
+    if got == want:
+        return ''
+    if got[0] == 'err':
+        return 'parse-error:' + ERR_NAMES.get(got[1], str(got[1]))
+    if got[0] != want[0]:
+        return 'node-kind'
+    return where_differs(want[1] if want[0] == 'ok' else [want[1]], got[1] if got[0] == 'ok' else [got[1]]) or 'differs'
+
+
 SEARCH_CORPUS = [
     [('B', 'a"b', [('L', 'x', 'y')])], [('B', 'a\\', [])], [('B', 'a\\n', [('L', 'k', 'v')])], [('B', 'tab\there', [])],
     [('L', 'a"b', 'c"d')], [('L', 'a\\', 'b\\')], [('L', 'k', 'line1\nline2\r\nline3\r')], [('L', '', '')], [('B', '', [])],
@@ -895,6 +989,25 @@ def search(ck: Ck) -> None:
                            {'named': True})
                 if snapshot(kv) != doc[0]:
                     report('serialise-mutates-tree', 'the tree differs after serialise()', doc[:1], o2)
+            # non-default parse options (theorems kv_roundtrip_options, kv_roundtrip_single_block*): a random vector;
+            # with newline_keys line breaks are put into names, without newline_values they are taken out of values
+            bits = rng.randrange(16)
+            po = bits_opts(bits)
+            brk = rng.choice(['\n', '\r', '\r\n'])
+            odoc = map_strings(doc,
+                               (lambda n_: n_[:len(n_) // 2] + brk + n_[len(n_) // 2:]) if po['newline_keys'] and rng.random() < 0.5
+                               else (lambda n_: n_),
+                               (lambda v_: v_) if po['newline_values'] else (lambda v_: v_.replace('\n', ' ').replace('\r', ' ')))
+            so = rng.choice(OPTS_WS)
+            ck.count('search_option_roundtrips')
+            ck.hist('search_parse_options', '+'.join(k for k, v in po.items() if v) or 'none')
+            d = options_fails(odoc, po, so)
+            if d and may_shrink('roundtrip-options', odoc):
+                small = shrink_doc(odoc, lambda dd: bool(options_fails(dd, po, so)))
+                cls = options_fails(small, po, so)
+                okey = '+'.join(k for k, v in po.items() if v) or 'none'
+                report(f'roundtrip-options:{okey}:' + fail_key('x', small, cls)[2:],
+                       f'parse(serialise(t), {po}) is not the tree ({cls})', small, so, {'parse_options': po})
             # the deprecated writer
             ck.count('search_exports')
             d = roundtrip_fails(doc, {}, 'export')
@@ -994,6 +1107,9 @@ def run(ck: Ck) -> None:
         t_stage = time.time()
         corr_tokens(ck)
         stage['token-exhaustive'] = round(time.time() - t_stage, 1)
+        t_stage = time.time()
+        corr_chunked(ck)
+        stage['chunked'] = round(time.time() - t_stage, 1)
     t_stage = time.time()
     search(ck)
     stage['search'] = round(time.time() - t_stage, 1)
@@ -1040,9 +1156,11 @@ def replay(data: dict) -> int:
     print('tree      :', doc)
     print('options   :', opts)
     print('text      :', repr(text))
-    got = impl_parse(text)
+    po = extra.get('parse_options')
+    got = impl_parse(text, None, po)
+    print('parse opts:', po or 'defaults')
     print('parse     :', got)
-    print('round trip:', 'OK' if got == ('ok', doc) else 'DIFFERS')
+    print('round trip:', 'OK' if got == (options_expected(doc, po) if po else ('ok', doc)) else 'DIFFERS')
     if 'chunks' in extra and isinstance(extra['chunks'], list):
         print('chunked   :', impl_parse(extra['chunks']))
     return 0
